@@ -212,6 +212,47 @@ def run_candidate(c):
                 got = [t[0] for t in toks if t[0] not in ("Whitespace", "Newline")]
                 if got != c["expect_types"]:
                     bad.append("token types %s, expected %s" % (got, c["expect_types"]))
+        elif kind == "graphs":
+            # every directed graph on up to c["nodes"] nodes (self loops included), realised as function-block instance
+            # graph or as structure-member graph; `check` must report P0010 exactly for the graphs with a cycle
+            n = c["nodes"]
+            names = ["N%d" % i for i in range(n)]
+            pairs = [(a, b) for a in range(n) for b in range(n)]
+            total = 0
+            wrong = []
+            for mask in range(1 << len(pairs)):
+                edges = [pairs[i] for i in range(len(pairs)) if mask >> i & 1]
+                adj = {a: [b for (x, b) in edges if x == a] for a in range(n)}
+                # cycle detection
+                color = {}
+                def dfs(u):
+                    color[u] = 1
+                    for v in adj[u]:
+                        if color.get(v) == 1 or (v not in color and dfs(v)):
+                            return True
+                    color[u] = 2
+                    return False
+                cyclic = any(dfs(u) for u in range(n) if u not in color)
+                if c["realise"] == "fb":
+                    text = "".join("FUNCTION_BLOCK %s\nVAR\n%s x : BOOL;\nEND_VAR\nEND_FUNCTION_BLOCK\n" % (
+                        names[a], "".join(" i%d : %s;\n" % (k, names[b]) for k, b in enumerate(adj[a]))) for a in range(n))
+                else:
+                    text = "TYPE\n" + "".join(" %s : STRUCT\n%s  x : BOOL;\n END_STRUCT;\n" % (
+                        names[a], "".join("  m%d : %s;\n" % (k, names[b]) for k, b in enumerate(adj[a]))) for a in range(n)) + "END_TYPE\n"
+                path = os.path.join(d, "g.st")
+                open(path, "w").write(text)
+                rc, so, se = run(binp, ["check", "g.st"], d)
+                got = "P0010" in codes_of(so + se)
+                total += 1
+                if rc not in (0, 1):
+                    wrong.append({"edges": edges, "problem": "crash exit %s" % rc, "source": text})
+                elif got != cyclic:
+                    wrong.append({"edges": edges, "cyclic": cyclic, "reported_P0010": got, "exit": rc, "source": text})
+                if len(wrong) >= 3:
+                    break
+            obs = {"graphs_checked": total, "wrong": wrong}
+            if wrong:
+                bad.append("%d graph(s) misjudged, first: edges %s cyclic=%s reported=%s" % (len(wrong), wrong[0]["edges"], wrong[0].get("cyclic"), wrong[0].get("reported_P0010")))
         elif kind == "lsp":
             steps = c["steps"]
             out = lsp_session(binp, steps, d)
